@@ -11,6 +11,7 @@ pub mod searchbed;
 pub mod searchmon;
 pub mod simnet;
 pub mod supervise;
+pub mod tabledrv;
 pub mod verdict;
 pub mod wiremon;
 pub mod world;
